@@ -26,6 +26,8 @@ library (scenario `edits`: oracles A, B, C), not by a theorem: the strict loader
 -/
 import AutosarVerif.Lemmas.Compat
 import AutosarVerif.Model.ToySpec
+import AutosarVerif.Lemmas.CompatValid
+import AutosarVerif.Lemmas.CompatValidReal
 
 namespace AV.C17
 open AV.W
@@ -96,5 +98,48 @@ example : hasVer (compatKids toySpec 0 2 0 0 (toyKids 8)).mask 1 = false := by d
 -- the enumeration item 7 exists in v0 only; an integer where an enumeration item is expected has the wrong kind
 example : valueCompatMask (.enum 7) (.enum [(7, 1), (8, 3)]) 2 = (false, 1) := by decide
 example : valueCompatMask (.uint 7) (.enum [(7, 1), (8, 3)]) 2 = (false, maxMask) := by decide
+
+
+/-! ### added in the third session: statements proved in the lemma files, restated here by name
+(`type_of%` keeps the statement identical to the lemma; the signature is quoted in the comment) -/
+
+/-- **soundness of "lists nothing"**: content that is valid in the target version (declarative `NodeValid`: every child found by the version's lookup with the recorded type, every attribute known and allowed with a compatible value, every text compatible, recursively, for the children of the file) makes the check list nothing and never panic - for specifications whose enumerations list each item once (`EnumKeysNodup`, checked on the regenerated tables: `C17_real_tables_enum_keys`)
+`theorem nodeValid_compat_nil (hE : EnumKeysNodup S) (file ver : Nat) (h : Hdr) (k : Items) (hv : NodeValid S file ver h k) : (compatNode S file ver h k).errs = [] ∧ (compatNode S file ver h k).panic = false` -/
+theorem C17_valid_content_lists_nothing : type_of% @AV.W.nodeValid_compat_nil := @AV.W.nodeValid_compat_nil
+
+/-- **exactness under the gap hypotheses**: if every child and attribute is known to its type in SOME version and recorded types agree with recomputed ones, the check lists nothing EXACTLY when the content is valid in the target version; each gap hypothesis is needed (`C17_gap_*`: the Lean negation witnesses of the known findings c17:*)
+`theorem compatNode_nil_iff_valid (hE : EnumKeysNodup S) (file ver : Nat) (h : Hdr) (k : Items) (hK : KnownKids S file h.ety.typ k) (hA0 : ∀ a ∈ h.attrs, (S.findAttr h.ety.typ a.1).isSome = true) (hA : KnownAttrs S file k) (hT : TypesAgree S file ver h.ety.typ k) : (compatNode S file ver h k).errs = [] ↔ NodeValid S file ver h k` -/
+theorem C17_lists_nothing_iff_valid : type_of% @AV.W.compatNode_nil_iff_valid := @AV.W.compatNode_nil_iff_valid
+
+/-- `theorem realSpec_valid_compat_nil (file ver : Nat) (h : Hdr) (k : Items) (hv : NodeValid realSpec file ver h k) : (compatNode realSpec file ver h k).errs = [] ∧ (compatNode realSpec file ver h k).panic = false` -/
+theorem C17_valid_content_lists_nothing_real_tables : type_of% @AV.Gen.realSpec_valid_compat_nil := @AV.Gen.realSpec_valid_compat_nil
+
+/-- `theorem realSpec_enumKeysNodup : EnumKeysNodup realSpec` -/
+theorem C17_real_tables_enum_keys : type_of% @AV.Gen.realSpec_enumKeysNodup := @AV.Gen.realSpec_enumKeysNodup
+
+/-- a successful `set_version` keeps the invariants of the larger alphabet, relabels the file, and leaves content that is valid in the new version (gap hypotheses as above)
+`theorem opSetVersion_history (vOk : Nat) (w : World) (f ver k : Nat) (hg : GInv S vOk w) (hver : ver &&& vOk = ver) (hk : fileModel w f = some k) (hok : (opSetVersion S w f ver).2 = .ok "") (hA0 : ∀ a ∈ (w.models[k]!).rootHdr.attrs, (S.findAttr (w.models[k]!).rootHdr.ety.typ a.1).isSome = true) (hA : KnownAttrs S f (w.models[k]!).rootKids) (hT : TypesAgree S f ver (w.models[k]!).rootHdr.ety.typ (w.models[k]!).rootKids) : GInv S vOk (opSetVersion S w f ver).1 ∧ NodeValid S f ver ((opSetVersion S w f ver).1.models[k]!).rootHdr ((opSetVersion S w f ver).1.models[k]!).rootKids ∧ (∀ fl ∈ ((opSetVersion S w f ver).1.models[k]!).files, fl.id = f → fl.version = ver)` -/
+theorem C17_set_version_in_reachable_states : type_of% @AV.W.opSetVersion_history := @AV.W.opSetVersion_history
+
+/-- `theorem opSetVersion_of_valid (hE : EnumKeysNodup S) (w : World) (f ver k : Nat) (hk : fileModel w f = some k) (hv : NodeValid S f ver (w.models[k]!).rootHdr (w.models[k]!).rootKids) : (opSetVersion S w f ver).2 = .ok ""` -/
+theorem C17_set_version_succeeds_on_valid_content : type_of% @AV.W.opSetVersion_of_valid := @AV.W.opSetVersion_of_valid
+
+/-- `theorem gap_unknown_child : (compatKids toySpec 0 1 0 0 unknownChild).errs = [] ∧ ¬ ValidIn toySpec 0 1 0 unknownChild ∧ ¬ KnownKids toySpec 0 0 unknownChild ∧ KnownAttrs toySpec 0 unknownChild ∧ TypesAgree toySpec 0 1 0 unknownChild` -/
+theorem C17_gap_unknown_child : type_of% @AV.W.CompatValidWitness.gap_unknown_child := @AV.W.CompatValidWitness.gap_unknown_child
+
+/-- `theorem gap_unknown_attr : (compatKids toySpec 0 1 0 0 unknownAttr).errs = [] ∧ ¬ ValidIn toySpec 0 1 0 unknownAttr ∧ KnownKids toySpec 0 0 unknownAttr ∧ ¬ KnownAttrs toySpec 0 unknownAttr ∧ TypesAgree toySpec 0 1 0 unknownAttr` -/
+theorem C17_gap_unknown_attribute : type_of% @AV.W.CompatValidWitness.gap_unknown_attr := @AV.W.CompatValidWitness.gap_unknown_attr
+
+/-- `theorem gap_alien_type : (compatKids toySpec 0 1 0 0 alienType).errs = [] ∧ ¬ ValidIn toySpec 0 1 0 alienType ∧ KnownKids toySpec 0 0 alienType ∧ KnownAttrs toySpec 0 alienType ∧ ¬ TypesAgree toySpec 0 1 0 alienType` -/
+theorem C17_gap_alien_type : type_of% @AV.W.CompatValidWitness.gap_alien_type := @AV.W.CompatValidWitness.gap_alien_type
+
+/-- `theorem gap_order : ValidIn toySpec 0 1 0 wrongOrder ∧ (compatKids toySpec 0 1 0 0 wrongOrder).errs = []` -/
+theorem C17_gap_order_not_checked : type_of% @AV.W.CompatValidWitness.gap_order := @AV.W.CompatValidWitness.gap_order
+
+/-- `theorem gap_multiplicity : ValidIn toySpec 0 1 0 twice ∧ (compatKids toySpec 0 1 0 0 twice).errs = [] ∧ toySpec.subMult 0 [0] = some .zeroOrOne` -/
+theorem C17_gap_multiplicity_not_checked : type_of% @AV.W.CompatValidWitness.gap_multiplicity := @AV.W.CompatValidWitness.gap_multiplicity
+
+/-- `theorem gap_pattern : ValidIn patSpec 0 1 0 patKids ∧ (compatKids patSpec 0 1 0 0 patKids).errs = [] ∧ ¬ ValidInStrict patSpec strictEnv 0 1 0 patKids` -/
+theorem C17_gap_pattern_not_checked : type_of% @AV.W.CompatValidWitness.gap_pattern := @AV.W.CompatValidWitness.gap_pattern
 
 end AV.C17
